@@ -20,12 +20,13 @@ Qed.
 (* the faithful model of srcNamespaceGenerator does NOT mean "namespace ends with a":
    regex .*/ns/.*a/.* is satisfied through the "/sa/" segment of every istio identity *)
 Definition ns_witness_policy : policy :=
-  {| p_id := 0; p_action := ALLOW; p_dry_run := false;
+  {| p_id := 0; p_ns := "foo"; p_action := ALLOW; p_dry_run := false;
      p_rules := [ {| from := [ {| s_principals := []; s_not_principals := [];
                                   s_request_principals := []; s_not_request_principals := [];
                                   s_namespaces := ["*a"]; s_not_namespaces := [];
                                   s_ip_blocks := []; s_not_ip_blocks := [];
-                                  s_remote_ip_blocks := []; s_not_remote_ip_blocks := [] |} ];
+                                  s_remote_ip_blocks := []; s_not_remote_ip_blocks := [];
+                                  s_service_accounts := []; s_not_service_accounts := [] |} ];
                      to := []; when := [] |} ] |}.
 Definition ns_witness_request : request :=
   {| r_peer := Some "cluster.local/ns/foo/sa/bar"; r_src_ip := 0; r_remote_ip := 0; r_dst_ip := 0; r_dst_port := 8080;
